@@ -209,7 +209,9 @@ class ForcePlatformsDataBlock(Block):
             raise ValueError("platform must be a ForcePlatformData instance")
 
         if channel is None:
-            channel = len(self._platforms)
+            channel = next(
+                c for c in range(len(self._plat_map) + 1) if c not in self._plat_map
+            )
         if channel in self._plat_map:
             raise ValueError(f"Channel {channel} already in use")
         self._plat_map.append(channel)
